@@ -34,14 +34,17 @@ SITES = {
     "data3d": [("frequency", "ibv", "a.freq", "i32"), ("startTime", "f32", "a.st", None), ("volume", "farr", "a.vol", ((3,), 32, 1)),
                ("rotation", "farr", "a.rot", ((3, 3), 32, 4)), ("translation", "farr", "a.tr", ((3,), 32, 2)),
                ("label", "label", "a.label1", 1), ("label_length", "label", "a.label0", 2), ("link", "ibv", "a.link0b", "u32"),
-               ("sample", "farr", "a.t1", ((2, 3), 32, 4)), ("flag", "sh", "flag", 1), ("format", "sh", "fmt", 2)],
+               ("sample", "farr", "a.t1", ((2, 3), 32, 4)), ("flag", "sh", "flag", 1), ("format", "sh", "fmt", 2),
+               ("gap", "gap", None, ([("a.t0", (2, 3), 32)], 1))],
     "emg": [("frequency", "ibv", "a.freq", "i32"), ("startTime", "f32", "a.st", None), ("channel", "ibv", "a.ch1", "i16"),
-            ("label", "label", "a.label1", 1), ("sample", "farr", "a.s1", ((2,), 32, 1))],
+            ("label", "label", "a.label1", 1), ("sample", "farr", "a.s1", ((2,), 32, 1)), ("gap", "gap", None, ([("a.s0", (2,), 32)], 0))],
     "force3d": [("frequency", "ibv", "a.freq", "i32"), ("startTime", "f32", "a.st", None), ("volume", "farr", "a.vol", ((3,), 32, 0)),
                 ("rotation", "farr", "a.rot", ((3, 3), 32, 8)), ("translation", "farr", "a.tr", ((3,), 32, 1)), ("label", "label", "a.label1", 1),
-                ("sample_point", "farr", "a.t1.ap", ((2, 3), 32, 3)), ("sample_force", "farr", "a.t0.f", ((2, 3), 32, 5)), ("sample_torque", "farr", "a.t1.t", ((2, 3), 32, 0))],
+                ("sample_point", "farr", "a.t1.ap", ((2, 3), 32, 3)), ("sample_force", "farr", "a.t0.f", ((2, 3), 32, 5)), ("sample_torque", "farr", "a.t1.t", ((2, 3), 32, 0)),
+                ("gap", "gap", None, ([("a.t1.ap", (2, 3), 32), ("a.t1.f", (2, 3), 32), ("a.t1.t", (2, 3), 32)], 0))],
     "fpdata": [("frequency", "ibv", "a.freq", "i32"), ("startTime", "f32", "a.st", None), ("channel", "ibv", "a.ch1", "u16"),
-               ("sample_point", "farr", "a.p1.ap", ((2, 2), 32, 2)), ("sample_force", "farr", "a.p0.f", ((2, 3), 32, 4)), ("sample_torque", "farr", "a.p1.t", ((2,), 32, 1))],
+               ("sample_point", "farr", "a.p1.ap", ((2, 2), 32, 2)), ("sample_force", "farr", "a.p0.f", ((2, 3), 32, 4)), ("sample_torque", "farr", "a.p1.t", ((2,), 32, 1)),
+               ("gap", "gap", None, ([("a.p0.ap", (2, 2), 32), ("a.p0.f", (2, 3), 32), ("a.p0.t", (2,), 32)], 1))],
     "fpcal": [("channel", "ibv", "a.ch1", "i16"), ("label", "label", "a.label1", 1), ("size", "farr", "a.p1.size", ((2,), 32, 1)), ("position", "farr", "a.p0.pos", ((4, 3), 32, 7))],
     "data2d": [("frequency", "ibv", "a.freq", "i32"), ("startTime", "f32", "a.st", None), ("camera_map", "ibv", "a.cam1", "u16"),
                ("sample", "farr", "a.cell1_1", ((1, 2), 32, 1)), ("flag", "sh", "flag", 1), ("cell_presence", "sh", "cells", [[1, 1], [1, 1]]), ("cell_points", "sh", "cells", [[2, None], [1, 1]])],
@@ -159,6 +162,19 @@ def _mutate(I, site):
         new = orig.copy()
         new[pos] = m
         return {name: new}, {}
+    if typ == "gap":
+        # the frame is present in a and wholly missing in b (every component NaN)
+        arrays, frame = site[3]
+        ov = {}
+        for (name, shape, w) in arrays:
+            orig = I.farray(name, shape, w)
+            row = orig[frame]
+            for x in B.isnan_list(I, row if hasattr(row, "shape") and row.shape else I.np.asarray(row).reshape(1)):
+                I.assume(I.not_(x))
+            new = orig.copy()
+            new[frame] = float("nan")
+            ov[name] = new
+        return ov, {}
     if typ == "iarr":
         n, code, idx = site[3]
         orig = I.iarray(name, n, code)
@@ -229,4 +245,7 @@ def instances(tier):
         if k in COUNT_KEY or k == "events":
             out.append(Instance(f"{k}.count.plus", count_case(k, +1), goals=["done"], cost=64 if gapkind else 2))
             out.append(Instance(f"{k}.count.minus", count_case(k, -1), goals=["done"], cost=16 if gapkind else 2))
+    from . import e2e
+    for v in ("same", "slot_count", "version", "fewer_blocks", "value", "label", "order"):
+        out.append(Instance(f"file.{v}", e2e.c14_file_case(v), goals=["done"], cost=40))
     return out
